@@ -22,10 +22,10 @@ CASES = [
     m("mirror stores a different value", "C03-C", A, "                self.resonance_coupling[ll,kk] = c1", "                self.resonance_coupling[ll,kk] = cc"),
     m("build leaves internal units (the repaired defect)", "C03-D", A,
       "        with energy_units(\"int\"):\n            self._build(mult=mult,", "        if True:\n            self._build(mult=mult,"),
-    m("energy loop skips the first molecule", "C03-E", "quantarhei/builders/aggregate_states.py",
+    m("energy loop skips the first molecule", "C03-G", "quantarhei/builders/aggregate_states.py",
       "        k = 0\n        for nn in self.elsignature:\n            en += \\", "        k = 0\n        for nn in self.elsignature[1:]:\n            en += \\"),
-    m("one-exciton coupling index shift dropped", "C03-E", A, "                        kk = state1.index - 1\n", "                        kk = state1.index\n"),
-    m("dipole of a fixed molecule", "C03-E", A, "        eldip = self.get_dipole(exindx, 0, 1)", "        eldip = self.get_dipole(0, 0, 1)"),
+    m("one-exciton coupling index shift dropped", "C03-F", A, "                        kk = state1.index - 1\n", "                        kk = state1.index\n"),
+    m("dipole of a fixed molecule", "C03-G", A, "        eldip = self.get_dipole(exindx, 0, 1)", "        eldip = self.get_dipole(0, 0, 1)"),
     t("formula with common denominator", I,
       "    cc = (np.dot(d1,d2)/(RR**3)\n        - 3.0*np.dot(d1,R)*np.dot(d2,R)/(RR**5))", "    cc = (np.dot(d1,d2)*RR**2\n        - 3.0*np.dot(d1,R)*np.dot(d2,R))/(RR**5)"),
 ]
@@ -45,4 +45,16 @@ CASES += [
     t("differing sites recorded without the guard", A,
       "                                if (k == 0) or (k == 1):\n                                    sites[k] = i\n                                k += 1\n                        # if there are exactly 2 differences, the differing\n                        # two molecules are those coupled; sites[k] contains\n                        # indiced those coupled molecules\n                        if k == 2:\n                            kk = sites[0]\n                            ll = sites[1]\n                            #print(kk,ll,els1,els2)",
       "                                if k < 2:\n                                    sites[k] = i\n                                k = k + 1\n                        if k == 2:\n                            kk, ll = sites\n                            #print(kk,ll,els1,els2)"),
+]
+
+AS = "quantarhei/builders/aggregate_states.py"
+CASES += [
+    m("transition dipole for any number of changed molecules", "C03-G", A,
+      "        if count != 1:\n            return -1\n\n        # now that we know", "        if count < 1:\n            return -1\n\n        # now that we know"),
+    m("state energy counts the first molecule only", "C03-G", AS,
+      "                    self.aggregate.monomers[k].elenergies[nn])\n            k += 1\n            \n        return en",
+      "                    self.aggregate.monomers[k].elenergies[nn])\n            break\n            \n        return en"),
+    t("state energy via enumerate", AS,
+      "        k = 0\n        for nn in self.elsignature:\n            en += \\\n            self.convert_energy_2_current_u(\n                    self.aggregate.monomers[k].elenergies[nn])\n            k += 1\n            \n        return en",
+      "        for k, nn in enumerate(self.elsignature):\n            en += \\\n            self.convert_energy_2_current_u(\n                    self.aggregate.monomers[k].elenergies[nn])\n\n        return en"),
 ]
